@@ -764,6 +764,22 @@ func GenExpr(r *rand.Rand, id string) *Case {
 	if r.Intn(2) == 0 {
 		c.Rules = append(c.Rules, Rule{Lhs: "E", Rhs: []string{"'('", "E", "')'"}})
 	}
+	if r.Intn(3) == 0 {
+		// a postfix operator: on a level of its own or sharing the level (and associativity) of a binary operator
+		if r.Intn(2) == 0 || len(c.Prec) == 0 {
+			pos := r.Intn(len(c.Prec) + 1)
+			pl := PrecLine{Assoc: []string{"left", "right", "nonassoc"}[r.Intn(3)], Syms: []string{"'!'"}}
+			c.Prec = append(c.Prec[:pos], append([]PrecLine{pl}, c.Prec[pos:]...)...)
+		} else {
+			k := r.Intn(len(c.Prec))
+			c.Prec[k].Syms = append(c.Prec[k].Syms, "'!'")
+		}
+		c.Rules = append(c.Rules, Rule{Lhs: "E", Rhs: []string{"E", "'!'"}})
+	}
+	if r.Intn(4) == 0 && len(binops) > 0 {
+		// a binary operator token that is also a prefix operator, the prefix rule taking the token's own precedence
+		c.Rules = append(c.Rules, Rule{Lhs: "E", Rhs: []string{binops[r.Intn(len(binops))], "E"}})
+	}
 	if r.Intn(4) == 0 {
 		// a mixfix rule whose two operator tokens sit on different levels (its precedence is that of the last one)
 		for _, t := range []string{"'?'", "':'"} {
